@@ -383,6 +383,76 @@ Definition aeq (a b : astate) : Prop :=
 
 Definition zseq (n : nat) : list Z := map Z.of_nat (seq 0 n).
 
+(* what each operation must answer, in terms of the abstract map only *)
+Definition rec_of (a : astate) (j : jid) (r : jrec) : Prop :=
+  forall k, aget k r = a_cell a (fst j) (snd j) k.
+
+Fixpoint a_collect {A} (f : Z -> res (list A)) (ps : list Z) : res (list A) :=
+  match ps with
+  | [] => Ok []
+  | p :: t =>
+    match f p with
+    | Er e => Er e
+    | Ok l => match a_collect f t with Er e => Er e | Ok l' => Ok (l ++ l') end
+    end
+  end.
+
+Definition a_meta_of (a : astate) (s k : Z) (p : Z) : res (list val) :=
+  match a_cell a s p K_META with
+  | None => Er EKey
+  | Some (FV _) => Er EAttr
+  | Some (FM m) => Ok (match aget k m with Some v => if is_none v then [] else [v] | None => [] end)
+  end.
+
+Definition a_out_of (a : astate) (s : Z) (p : Z) : res (list fval) :=
+  match a_cell a s p K_OUT with
+  | None => Er EKey
+  | Some v => Ok (if f_is_none v then [] else [v])
+  end.
+
+Definition out_ok (a : astate) (o : op) (x : out) : Prop :=
+  match o with
+  | CreateSearch => x = OSid (Z.of_nat (a_ns a))
+  | CreateJob s => if a_sex a s then x = OJid (s, Z.of_nat (a_nj a s)) else x = OErr EKey
+  | StoreJob j _ _ | StoreJobIn j _ _ | StoreJobOut j _ | StoreJobStatus j _ =>
+    if a_jex a j then x = ONone else x = OErr EKey
+  | StoreMeta j _ _ =>
+    if a_jex a j then
+      match a_cell a (fst j) (snd j) K_META with
+      | Some (FM _) => x = ONone
+      | Some (FV _) => x = OErr EType
+      | None => x = OErr EKey
+      end
+    else x = OErr EKey
+  | StoreSearchValue s _ _ => if a_sex a s then x = ONone else x = OErr EKey
+  | LoadAllSearchIds => x = OSids (zseq (a_ns a))
+  | LoadAllJobIds s =>
+    if a_sex a s then x = OJids (map (fun p => (s, p)) (zseq (a_nj a s))) else x = OErr EKey
+  | LoadSearch s =>
+    if a_sex a s then
+      exists l, x = ORecs l /\ map fst l = zseq (a_nj a s) /\ (forall p r, aget p l = Some r -> rec_of a (s, p) r)
+    else x = OErr EKey
+  | LoadJob j => if a_jex a j then exists r, x = ORec r /\ rec_of a j r else x = OErr EKey
+  | LoadSearchValue s k =>
+    if a_sex a s then match a_sval a s k with Some v => x = OFval v | None => x = OErr EKey end
+    else x = OErr EKey
+  | LoadMetaAll s k =>
+    if a_sex a s then
+      match a_collect (a_meta_of a s k) (zseq (a_nj a s)) with Ok l => x = OVals l | Er e => x = OErr e end
+    else x = OErr EKey
+  | LoadOutAll s =>
+    if a_sex a s then
+      match a_collect (a_out_of a s) (zseq (a_nj a s)) with Ok l => x = OFvals l | Er e => x = OErr e end
+    else x = OErr EKey
+  | LoadJobs js =>
+    if forallb (a_jex a) js then
+      exists l, x = OJobs l /\ map fst l = js /\ Forall (fun jr => rec_of a (fst jr) (snd jr)) l
+    else x = OErr EKey
+  | LoadJobStatus j =>
+    if a_jex a j then match a_cell a (fst j) (snd j) K_STATUS with Some v => x = OFval v | None => x = OErr EKey end
+    else x = OErr EKey
+  end.
+
 (* ---------- non-atomic create_new_job (what the atomicity assumption excludes) ---------- *)
 (* micro steps of one client: read the counter into a local, write local+1, initialise the record and return *)
 Inductive micro := MRead | MWrite | MInit.
